@@ -527,6 +527,7 @@ fn schema_to_base_schemakind(schema: &Schema) -> SchemaKind {
             _ => unreachable!(),
         },
         SchemaKind::Duration => SchemaKind::Fixed,
+        SchemaKind::BigDecimal => SchemaKind::Bytes,
         _ => kind,
     }
 }
